@@ -8,8 +8,10 @@ for f in sorted(glob.glob('/tmp/mut/results/*.json')):
     if not r['verify'].get('confirmed'): 
         print('NOT CONFIRMED', f, r['verify']); continue
     prop, n = r['property'], r['mutant']
-    src = f'/tmp/mut/{prop}/out'
-    dst = f'/verif/seeded/{prop}-m{n}'
+    r2 = os.path.basename(f).startswith('r2_')
+    src = f"/tmp/mut{'2' if r2 else ''}/{prop}/out"
+    name = f"{prop}-{'r2' if r2 else ''}m{n}"
+    dst = f'/verif/seeded/{name}'
     os.makedirs(dst, exist_ok=True)
     shutil.copy(f'{src}/m{n}.diff', f'{dst}/patch.diff')
     shutil.copy(f'{src}/m{n}_demo.rs', f'{dst}/demo.rs')
@@ -38,9 +40,9 @@ for f in sorted(glob.glob('/tmp/mut/results/*.json')):
     for k in ('history', 'detected_after_strengthening'):
         if k in prev: meta[k] = prev[k]
     json.dump(meta, open(f'{dst}/meta.json', 'w'), indent=1, ensure_ascii=False)
-    rows.append((prop, n, m.get('summary', '')[:110], caught, prop in caught))
+    rows.append((prop, name, (m.get('summary') or '')[:140].replace('|', '/'), caught, prop in caught))
 print('| change | breaks | what it needs | caught by (quick tier) |')
 print('|---|---|---|---|')
-for prop, n, summ, caught, own in rows:
-    print(f"| {prop}-m{n} | {prop} | {summ} | {', '.join(caught) if caught else '**none**'}{'' if own else ' (own property check: **missed**)'} |")
+for prop, name, summ, caught, own in rows:
+    print(f"| {name} | {prop} | {summ} | {', '.join(caught) if caught else '**none**'}{'' if own else ' (own property check: **missed**)'} |")
 print(len(rows), 'kept;', sum(1 for r in rows if r[4]), 'caught by own property check;', sum(1 for r in rows if r[3]), 'caught by some check')
